@@ -473,6 +473,36 @@ def r_forget(ctx):
                 else:
                     res.fail(owner.path(), "bypasses-move_into/%s" % arm_name(tt), "the bytes of a user value are copied out directly instead of through AnyValueSizeless::move_into: "
                              "overrides (lazy clones, removal handles) are skipped, the source is duplicated bitwise", span=span_of_effect(c))
+    # ... nor by disarming a user value directly: mem::forget / ManuallyDrop::new of a value of a type parameter bound by an AnyValue* trait (or of `Self`
+    # in a default method of those traits) skips what the value's own move_into does (removal handles finish the removal, lazy clones clone)
+    SUPP = {"core::mem::forget": "mem::forget", "core::mem::ManuallyDrop::<T>::new": "ManuallyDrop::new"}
+    for f in fx.fn_list:
+        if fx.fn(f["path"]) is not f or not f.get("blocks"):
+            continue
+        is_protocol = f.get("name") == "move_into" and (f.get("impl_trait") == trait or f.get("trait_item_of") == trait)
+        wh = f.get("where", [])
+        for b in f["blocks"]:
+            tm = b["term"]
+            if tm["k"] != "call" or "indirect" in tm["callee"] or tm["callee"]["path"] not in SUPP:
+                continue
+            ga = [a for a in tm["callee"].get("generic_args", []) if a.get("k") not in ("region", "const")]
+            if not ga:
+                continue
+            t = ga[0]
+            user_value = t.get("k") == "param" and any(w.startswith(t["name"] + ": any_value::AnyValue") for w in wh)
+            owning_handle = False
+            if t.get("k") == "adt" and SUPP[tm["callee"]["path"]] == "mem::forget":
+                a = fx.adts.get(t["path"])
+                owning_handle = bool(a and a.get("has_drop_impl") and any(im["self_ty"].get("path") == t["path"] for im in impls))
+            if not (user_value or owning_handle):
+                continue
+            res.inst(sample={"function": f["path"], "disarms": t.get("s"), "through": SUPP[tm["callee"]["path"]], "inside_move_into": is_protocol}, func=f["path"])
+            if is_protocol:
+                res.ok()
+            else:
+                res.fail(f["path"], "forget-bypasses-move_into", "%s of a value of type %s outside AnyValueSizeless::move_into: what the value's own move_into does on "
+                         "consumption (finish a removal, clone a lazy value, destroy nothing twice) is skipped" % (SUPP[tm["callee"]["path"]], t.get("s")),
+                         span="%s:%s" % (f["span"]["file"], tm.get("line")))
     # lazy-clone sources derived from a vector exist only for Cloneable constraint sets (a non-Cloneable vector has a no-op clone function)
     for im in fx.impls_of("any_value::AnyValueCloneable"):
         sp = im["self_ty"].get("path")
@@ -485,6 +515,26 @@ def r_forget(ctx):
             res.fail(sp or im["self_ty"].get("s"), "cloneable-bound", "`impl AnyValueCloneable for %s` is not restricted to Cloneable constraint sets: lazy clones of values from a "
                      "non-Cloneable vector clone nothing and leave the destination uninitialised" % im["self_ty"].get("s"),
                      span="%s:%s" % (im["span"]["file"], im["span"]["line"]))
+    # a value kind that owns a user value by value must destroy it when it is not consumed (a rejected wrong-type value is dropped, once): an owned `T`
+    # kept inside ManuallyDrop / MaybeUninit needs a Drop impl on the wrapper
+    for im in impls:
+        st = im["self_ty"]
+        a = fx.adts.get(st.get("path", ""))
+        if not a:
+            continue
+        tparams = {g["name"] for g in a.get("generics", []) if g["kind"] == "type"}
+        for v in a["variants"]:
+            for fl in v["fields"]:
+                t = fl["ty"]
+                if t.get("k") == "adt" and t["path"] in ("core::mem::ManuallyDrop", "core::mem::MaybeUninit"):
+                    inner = [x for x in t.get("args", []) if isinstance(x, dict) and x.get("k") == "param" and x.get("name") in tparams]
+                    if inner:
+                        res.inst(sample={"value_kind": a["path"], "field": fl["name"], "holds": t.get("s"), "has_drop_impl": a.get("has_drop_impl")})
+                        if a.get("has_drop_impl"):
+                            res.ok()
+                        else:
+                            res.fail(a["path"], "owned-value-no-drop", "`%s` owns a user value in field `%s: %s` but has no Drop impl: a value that is not consumed "
+                                     "(rejected for its type, or simply dropped) is leaked instead of being destroyed once" % (a["path"], fl["name"], t.get("s")))
     # wrapper drop-glue facts
     expect_no_drop = ["element::ElementRef", "element::ElementMut", "any_value::lazy_clone::LazyClone", "any_value::raw::AnyValueRaw",
                       "any_value::raw::AnyValueTypelessRaw", "any_value::raw::AnyValueSizelessRaw"]
